@@ -170,9 +170,9 @@ CLAIMED["C15"] = dict(
          "spin-orbital expression at the relabelled assignment, for all orbital models and tensor values (adm_split, splitIdx_sound). "
          "For every (term, target order, target spin) explored the result of integrate_spin must be accepted by checkEquiv as equal to "
          "that reference after dropping the terms that vanish under the stated spin-conservation hypothesis; expand_eri and restricted "
-         "variants are validated relative to it under the stated relabellings; blocks not reported by allowed_spin_blocks are proved to "
+         "variants are validated relative to it (restricted: relative to forgetSpin of it, proved sound: forgetSpin_sound); blocks not reported by allowed_spin_blocks are proved to "
          "vanish. Four genuine defects repaired (fix: commits). Inputs are sampled.",
-    note=TB + "Model hypotheses (spin-conservation filter for ERI/t-amplitudes/Coulomb, V = v - v, beta->alpha relabelling for restricted) are stated harness-side; no Lean theorem for the restricted clause. Registered intermediates' declared spin blocks are not covered.")
+    note=TB + "Model hypotheses (spin-conservation filter for ERI/t-amplitudes/Coulomb, V = v - v) are stated harness-side. Restricted clause: the reference is built by the Lean model forgetSpin (Adc/Restricted.lean) and forgetSpin_sound / restricted_sound prove that relabelling every beta index as alpha preserves the value for every orbital model with a spin flip (Flip) and every tensor model in which alpha and beta tensors coincide (SpinBlind), deltas only between equally labelled indices, no clash of names. Registered intermediates' declared spin blocks are not covered.")
 
 CLAIMED["C14"] = dict(
     category="translation_validation", design="DESIGN.md §4 C14",
